@@ -178,7 +178,11 @@ int ezc3d::ParametersNS::GroupNS::Parameter::read(ezc3d::c3d &file, int nbCharIn
     size_t dataLength(static_cast<size_t>(abs(lengthInByte)));
     for (size_t i=0; i<_dimension.size(); ++i)
         dataLength *= _dimension[i];
-    if (dataLength > 0xFFFF)
+    // Strings of length 0 take no room in the record, so their number has to be bounded too
+    size_t nbValues(1);
+    for (size_t i=(_data_type == DATA_TYPE::CHAR && _dimension.size() > 1 ? 1 : 0); i<_dimension.size(); ++i)
+        nbValues *= _dimension[i];
+    if (dataLength > 0xFFFF || nbValues > 0xFFFF)
         throw std::ios_base::failure ("Parameter data are larger than a parameter can hold");
 
     // Read the data for the parameters
